@@ -94,7 +94,8 @@ Proof.
   intros t n sym p Ht Hin Hk. pose proof (table_row t _ Ht Hin Hk) as H. simpl in H. now apply String.eqb_eq in H.
 Qed.
 
-(* the full-strength statement (no exception list) is false of the current code: two literal rows *)
-Lemma known_rows_refuted : abi_ok witness_field_id = false /\ abi_ok witness_bcdataset_info_abi = false /\
-  arow_known witness_field_id = true /\ arow_known witness_bcdataset_info_abi = true.
+(* the full-strength statement (no exception list) is false of the current code: a literal copy of the excused row
+   fails abi_ok; an interface body whose link name has no C definition fails abi_ok and is NOT excused *)
+Lemma known_rows_refuted : abi_ok witness_bcdataset_info_abi = false /\ arow_known witness_bcdataset_info_abi = true /\
+  abi_ok witness_field_id = false /\ arow_known witness_field_id = false /\ abi_table_ok [witness_field_id] = false.
 Proof. vm_compute. repeat split; reflexivity. Qed.
